@@ -541,6 +541,27 @@ func c37Run(t *testing.T, ci any, trace bool) *verifsim.Result {
 					// second variant: the earlier fetch was not cancelled but received the
 					// block after this one had been issued; its want was still marked as
 					// sent when this session asked, the peers had answered it already
+					//
+					// Before those: the recorded finding about one session asking for a key
+					// again right after it received it (see want-left-behind-after-rewant-
+					// in-session). When the want sender's "no longer interested" for the
+					// received key lands after the session loop's "interested again", the
+					// session is no longer accounted for the key and every later block for
+					// it is sorted out as unwanted: the second fetch never completes.
+					if r := c.Reqs[lv.idx]; r.Kind == "session" {
+						in1, in2 := false, false
+						for _, kk := range r.Keys {
+							in1 = in1 || kk == b
+						}
+						for _, kk := range r.Keys2 {
+							in2 = in2 || kk == b
+						}
+						if in1 && in2 {
+							s.Failf("not-delivered-after-rewant-in-session", "%s never received block #%d although nodes %v hold it and every link was healed %v of simulated time ago; the request asked for it twice on one session (second fetch after the first had received it)", desc, b, hs, settle)
+							shutdown()
+							return
+						}
+					}
 					for _, e := range lives {
 						if _, wants := e.want[k]; e != lv && wants && e.node == lv.node && e.issued && e.got[k] > 0 && e.issuedAt <= lv.issuedAt && e.gotAt[k] >= lv.issuedAt {
 							s.Failf("not-delivered-after-cancelled-earlier-fetch", "%s never received block #%d although nodes %v hold it and every link was healed %v of simulated time ago; req#%d of the same node had asked for the block earlier (t=%v) and received it at t=%v, after this request had been issued (t=%v): the want was still marked as sent to the peers, which had answered it", desc, b, hs, settle, e.idx, e.issuedAt, e.gotAt[k], lv.issuedAt)
